@@ -465,7 +465,7 @@ class Rectilinear(Scalar):
     @property
     def nDoF(self):
         """Number of degrees of freedom for one variable"""
-        return np.prod(self.gridSizes)
+        return int(np.prod(self.gridSizes))
 
     def toVTR(self, baseName, varNames, idxFormat="{:06d}"):
         """
